@@ -5,14 +5,22 @@ import SamlVerif.Driver.Xmlenc
 import SamlVerif.Driver.IdP
 import SamlVerif.Driver.Logout
 import SamlVerif.Driver.Bindings
+import SamlVerif.Driver.Html
 
 open SamlVerif
 
 def allHandlers : List (String × Proto.P String) :=
-  Driver.SPStruct.handlers ++ Driver.Codec.handlers ++ Driver.XmlencD.handlers ++ Driver.IdPD.handlers ++ Driver.LogoutD.handlers ++ Driver.BindingsD.handlers
+  Driver.SPStruct.handlers ++ Driver.Codec.handlers ++ Driver.XmlencD.handlers ++ Driver.IdPD.handlers ++ Driver.LogoutD.handlers ++ Driver.BindingsD.handlers ++ Driver.HtmlD.handlers
 
 def answer (line : String) : String :=
   match (line.splitOn " ").filter (· ≠ "") with
+  | id :: "oneway" :: op :: args =>
+    (match allHandlers.lookup op with
+     | some p =>
+       (match Proto.runAll p args with
+        | some out => id ++ " oneway " ++ out
+        | none => id ++ " bad-op parse")
+     | none => id ++ " oneway none")
   | id :: op :: args =>
     match allHandlers.lookup op with
     | some p =>
